@@ -64,9 +64,10 @@ func drawEntry(t *rapid.T, id int) entry {
 	for i := range segs {
 		segs[i] = rapid.SampledFrom(segAlphabet).Draw(t, "seg")
 	}
-	// slash noise: 0-2 leading, 1-2 between segments, 0-2 trailing (mostly the plain spelling)
+	// slash noise: 0-5 leading, 1-5 between segments, 0-4 trailing (mostly the plain spelling; runs of
+	// three and more matter because a single pass of "//" -> "/" only halves them)
 	slashes := func(label string, lo int) string {
-		n := rapid.SampledFrom([]int{1, 1, 1, 1, 0, 2}).Draw(t, label)
+		n := rapid.SampledFrom([]int{1, 1, 1, 1, 1, 1, 0, 2, 2, 3, 4, 5}).Draw(t, label)
 		if n < lo {
 			n = lo
 		}
@@ -80,7 +81,7 @@ func drawEntry(t *rapid.T, id int) entry {
 		p += sg
 	}
 	if rapid.IntRange(0, 3).Draw(t, "trail") == 0 {
-		p += strings.Repeat("/", rapid.IntRange(1, 2).Draw(t, "ntrail"))
+		p += strings.Repeat("/", rapid.IntRange(1, 4).Draw(t, "ntrail"))
 	}
 	return entry{ID: id, Verb: rapid.SampledFrom(verbs).Draw(t, "verb"), Path: p, segs: refSegments(p)}
 }
